@@ -485,10 +485,18 @@ class PrintNode(visitor.Visitor):
         return ".."
 
     def visit_BinaryOp(self, node):
-        return self.visit(node.left) + node.op + self.visit(node.right)
+        right = self.visit(node.right)
+        if right[:1] in ["+", "-"]:
+            # Avoid adjacent operators, 1--1 or 1-+1*2.
+            # Not valid in Fortran and -- is decrement in C.
+            right = "(" + right + ")"
+        return self.visit(node.left) + node.op + right
 
     def visit_UnaryOp(self, node):
-        return node.op + self.visit(node.node)
+        operand = self.visit(node.node)
+        if operand[:1] in ["+", "-"]:
+            operand = "(" + operand + ")"
+        return node.op + operand
 
     def visit_ParenExpr(self, node):
         return "(" + self.visit(node.node) + ")"
